@@ -7,6 +7,17 @@ BOUNDED = []
 BUDGET_S = {"quick": 60, "thorough": 1200}
 
 
+
+KERNEL_IN_SYNC = None
+
+
+def setup():
+    # the API-level cases run the CURRENT kernel source (interpreted) when the compiled extension is stale
+    global KERNEL_IN_SYNC
+    import support as _S
+    KERNEL_IN_SYNC = _S.install_kernel()
+
+
 def cases(tier, seed):
     for cid, inp in t02.cases(tier, seed):
         if inp.get("lnp", True) or inp["level"] == "api":
